@@ -253,6 +253,23 @@ def random_trees(rep, pid, tier, relevant, n=None, ops=40, opts="two", extra_opt
     return cnt
 
 
+def boundary_sessions(rep, pid, tier, relevant, n=None):
+    """scale instead of small scope: sessions built around boundary sizes (chains 15..300 levels deep, 15..300 distinct
+    children / attributes / repetitions, names 15..300 characters long) are parsed by the real code and the rendering of
+    the resulting tree is judged by RenderTrace"""
+    n = n or (36 if tier == "quick" else 216)
+    trace = os.path.join(c.OUT, "traces", "%s-boundary-schema.ndjson" % pid)
+    rtrace = os.path.join(c.OUT, "traces", "%s-boundary-render.ndjson" % pid)
+    c.harness(["schema-record", "--seed", c.seed(), "--n", n, "--boundary-only", 1, "--damage", 0, "--out", trace, "--render-trace", rtrace])
+    cnt_n, infos, st = c.judge_trace("RenderTrace", rtrace, "%s-rt-boundary" % pid, timeout=1800)
+    events = c.read_ndjson(rtrace)
+    cnt, drift = classify(rep, infos, relevant, events, "boundary sessions")
+    rep.add(evaluations=sum(len(e["renders"]) for e in events), traces_validated_against_impl=cnt_n, boundary_sessions=cnt_n,
+            render_drift=drift, trace_states=st)
+    os.remove(trace)
+    return cnt
+
+
 def keyword_pools(tier):
     """all reserved words of convert_string are covered across the keyword pools; quick runs two of them per seed"""
     ks = ["keywords%d" % i for i in range(2, 10)]
